@@ -74,6 +74,8 @@ def concretize(s, rng):
         s["place"] = SAME_PLACES[s["src"]]
         s["tgt"] = cls.split("-")[1]
     s["cls"] = cls
+    # how the layers of the source were serialised is not a matter of the design spec either
+    s["img"].setdefault("ser", "alt" if rng.random() < 0.4 else "")
     world_dims(s, rng)
     return s
 
@@ -324,8 +326,16 @@ def run(ctx):
     for s in singles_all:
         k = optkey(s["prog"][0]) if s["prog"] else ("-", s["place"], s["src"], 0)
         by_opt.setdefault(k, []).append(s)
+    # per option: one scenario where it changes something and one where it sets what is already there (a no-op by its
+    # documented meaning), when the generator produced both
     for k in sorted(by_opt):
-        chosen += vlib.sample(rng, by_opt[k], 25) if thorough else [rng.choice(by_opt[k])]
+        if thorough:
+            chosen += vlib.sample(rng, by_opt[k], 25)
+            continue
+        for flag in (0, 1):
+            cand = [x for x in by_opt[k] if x["noop"] == flag]
+            if cand:
+                chosen.append(rng.choice(cand))
     n_single = len(chosen)
     vocabulary = sorted({k[0] for k in by_opt})
     # every pair that mixes adding and removing layers (thorough: every pair on every image of the pairs universe)
@@ -365,6 +375,16 @@ def run(ctx):
             ({"n": 3, "hist": "LELL", "shape": "image", "mt": "oci", "comp": "gzip", "data": 0, "refs": 0, "ext": 0, "base": 1}, [{"k": "RebaseAnnot", "a": "", "v": "", "i": 0}], "same-tag", "dir"),
             ({"n": 3, "hist": "LELL", "shape": "index", "mt": "oci", "comp": "zstd", "data": 0, "refs": 1, "ext": 0, "base": 1, "alg": "sha512"}, [{"k": "RebaseAnnot", "a": "", "v": "", "i": 0}, {"k": "AddLayer", "a": "", "v": "", "i": 0}], "cross", "reg")]):
         must.append(concretize({"img": img, "prog": prog, "place": cls, "src": src, "noop": 0}, rng))
+    # "set X to the value it already has" on an image whose time stamps all are one instant, in every spelling of that
+    # instant, with both serialisations of the layers (the class of seeded/C13-7)
+    for comp, ser, shape in (("gzip", "alt", "image"), ("zstd", "", "index"), ("none", "alt", "image"), ("mixed", "", "image")):
+        for k, a in (("ConfigTime", "samezone"), ("ConfigTime", "samelocal"), ("ConfigTime", "sameafter"), ("LayerTime", "same"),
+                     ("LayerTime", "samezone"), ("LayerTime", "sameafter"), ("FileTarTime", "samezone")):
+            uimg = {"n": 2, "hist": "LEL", "shape": shape, "mt": "oci", "comp": comp, "data": 0, "refs": 0, "ext": 0, "ut": 1, "ser": ser}
+            must.append(concretize({"img": uimg, "prog": [{"k": k, "a": a, "v": "", "i": 0}], "src": rng.choice(["reg", "dir"]),
+                                    "place": rng.choice(["cross", "same-digest", "same-replace"]), "noop": 1}, rng))
+    for m in must:      # regression scenarios run in the plain world (by tag, default features, empty target)
+        world_dims(m, rng, srcref="", feat="", pre=0)
     # world dimensions one at a time on a few programs that touch referrers, blobs and manifests (quick), and the full
     # product srcref x registry features x pre-populated target on a sample of the scenarios (thorough)
     probes = []
@@ -460,7 +480,8 @@ def run(ctx):
                     break
             sig = "mod:%s:%s:%s@%s/%s/%s%s%s" % (ob, role, kinds(minimal), s["cls"], s["src"], s["img"]["shape"],
                                                 "+data" if s["img"]["data"] else "",
-                                                ("+ext" if s["img"]["ext"] else "") + ("+sha512" if s["img"].get("alg") == "sha512" else ""))
+                                                ("+ext" if s["img"]["ext"] else "") + ("+sha512" if s["img"].get("alg") == "sha512" else "")
+                                                + ("+ut" if s["img"].get("ut") else ""))
             classes.setdefault(sig, {"traces": [], "minimal": minimal})
             classes[sig]["traces"] += groups[ck][(ob, role)]
     for sig in sorted(classes):
@@ -536,7 +557,9 @@ def run(ctx):
         "scenarios": len(scns), "single_option_scenarios": n_single, "pair_scenarios": n_pairs, "random_scenarios": len(rand_all),
         "unpredicted_shape_scenarios": len(extra), "regression_scenarios": len(must), "world_dimension_scenarios": len(probes),
         "world_dimension_values": {k: sorted({str(s.get(k, "")) for s in scns}) for k in ("srcref", "feat", "pre", "place", "tgt")},
-        "image_dimension_values": {k: sorted({str(s["img"].get(k, "")) for s in scns}) for k in ("n", "shape", "mt", "comp", "data", "refs", "ext", "alg")},
+        "image_dimension_values": {k: sorted({str(s["img"].get(k, "")) for s in scns})
+                                   for k in ("n", "shape", "mt", "comp", "data", "refs", "ext", "alg", "ut", "ser", "base")},
+        "noop_scenarios": len([s for s in scns if s.get("noop")]),
         "option_kinds_driven": vocabulary,
         "apply_errors": errors, "traces_with_rejected_events": len(bad),
         "violation_classes": sorted(classes),
